@@ -117,3 +117,25 @@ func H_Assetprofile_LookupByDenomAcrossUpdate() {
 	vrf.Observe("new-found", f2)
 	vrf.Observe("new-base", e2.BaseDenom)
 }
+
+// The tier module keys its daily portfolio records by calendar date: the date strings derived from the block time are
+// the same on every node, whatever time zone the machine is set to.
+//
+//vrf:product
+//vrf:witnesses 0
+//vrf:bound block times 2025-03-10 20:00 UTC, 2025-03-11 02:30 UTC, 2024-02-29 23:59:59 UTC (symbolic choice; calendar arithmetic runs on concrete times); the date of the block and the dates 1 / 8 days before it as the tier keeper computes them
+func H_Tier_PortfolioDates() {
+	env := wire.New(wire.Opts{})
+	now := int64(1741636800)
+	switch vrf.I64("blockTimeChoice", 0, 2) {
+	case 1:
+		now = 1741660200
+	case 2:
+		now = 1709251199
+	}
+	env.Ctx = vrf.SetBlock(env.Ctx, 100, now)
+	ctx := env.Ctx
+	vrf.Observe("today", env.Tier.GetDateFromContext(ctx))
+	vrf.Observe("yesterday", env.Tier.GetDateAfterDaysFromContext(ctx, -1))
+	vrf.Observe("lastWeek", env.Tier.GetDateAfterDaysFromContext(ctx, -8))
+}
